@@ -123,7 +123,7 @@ class Clause:
 
     def nshards(self, tier, ncpu):
         n = self.budget[tier]
-        per_min = 1 if n < 64 else 25
+        per_min = 1 if n < 32 else 6
         return max(1, min(self.max_shards, ncpu, n // per_min if per_min else 1))
 
 
@@ -223,10 +223,18 @@ def drive(clause, n, seed, findings, deadline, shrink_kind=None):
     class _Viol(Exception):
         pass
 
+    seen = set()
+
     def body(case):
         if deadline is not None and time.time() > deadline:
             res.skipped_after_deadline += 1
             return
+        if shrink_kind is None:
+            h = case_hash(case)
+            if h in seen:          # Hypothesis regenerates identical values now and then; do not pay for them twice
+                res.labels["duplicate_case_skipped"] = res.labels.get("duplicate_case_skipped", 0) + 1
+                return
+            seen.add(h)
         fresh = run_case(clause, case, findings, res)
         if shrink_kind is not None:
             for v in fresh:
